@@ -5,6 +5,7 @@ mod hs;
 mod c02;
 mod imw;
 mod c06;
+mod c14;
 mod life;
 mod c20rv;
 mod c04;
@@ -33,6 +34,7 @@ fn main() {
             "c20rv" => c20rv::run(&a[2..]),
             "life" => life::run(&a[2..]),
             "c06" => c06::run(&a[2..]),
+            "c14" => c14::run(&a[2..]),
             "c03" => c03::run(&a[2..]),
             "c04e2e" => c03::run_ctr(&a[2..]),
             "c04" => c04::run(&a[2..]),
